@@ -55,7 +55,9 @@ def gen_cases(tier, seed):
         r = random.Random(env.seed_for(s, "descriptor"))  # independent of the stream run_case derives from the same seed
         out.append({"seed": s, "observer": r.choice(["console", "html", "html_path", "ipython"]), "mode": r.choice(["direct", "threaded"]), "exit_with": r.choice(["none", "none", "error", "kbi", "sysexit"]), "dry_tail": r.random() < 0.15,
                     "nscopes": r.choice([1, 2, 3, 5, 8]), "nthreads": r.choice([1, 1, 2, 4]), "style": r.choice(["same_unorderable", "mixed", "strings", "any"]),
-                    "exceptions": r.choice([0, 0, 1, 3, 150, 200]) if r.random() < 0.5 else 0})
+                    "exceptions": r.choice([0, 0, 1, 3, 150, 200]) if r.random() < 0.5 else 0,
+                    # one scope with more than 100 calls (a fresh IntProgress has max == 100); an output sink that is still busy when the run ends
+                    "big": r.random() < 0.06, "slow_sink": r.random() < 0.5})
     return out
 
 
@@ -113,6 +115,8 @@ def gen_sequence(r, scopes, desc):
     for section in sections:
         use = scopes if section == "run" else scopes[: max(1, len(scopes) // 2)]
         totals = {sc: r.randint(1, 6) if n_exc < 100 else r.randint(20, 60) for sc in use}
+        if desc.get("big"):
+            totals[use[0]] = r.randint(101, 180)
         for sc, t in totals.items():
             if r.random() < 0.3 and t > 1:
                 seq.append((0, "total", section, sc, t - 1, 0.0))
@@ -223,6 +227,7 @@ def run_case(desc):
     spo.time = clock
     tmp = None
     outputs = []
+    counters_extra = {}
     thread_errors = []
     old_hook = threading.excepthook
     threading.excepthook = lambda args: thread_errors.append((args.exc_type.__name__, str(args.exc_value)[:200], args.thread.name if args.thread else None))
@@ -238,7 +243,21 @@ def run_case(desc):
         if kind == "console":
             obs = up.ConsoleProgressObserver(**iv)
         elif kind == "html":
-            obs = up.HtmlProgressObserver(lambda b: outputs.append(b), **iv)
+            if threaded and desc.get("slow_sink"):
+                # a sink that is slow once (a slow file system, a remote notebook): its second document is still being written when the run
+                # ends - whatever was notified meanwhile must still be shown by a last rendering
+                def sink(b, _n=[0]):
+                    _n[0] += 1
+                    if _n[0] == 2:
+                        t_end = real_time.monotonic() + 2.0
+                        while not obs._done_event.is_set() and real_time.monotonic() < t_end:
+                            real_time.sleep(0.0005)
+                        counters_extra["slow_sink_busy_at_exit"] = int(obs._done_event.is_set())
+                    outputs.append(b)
+
+                obs = up.HtmlProgressObserver(sink, **iv)
+            else:
+                obs = up.HtmlProgressObserver(lambda b: outputs.append(b), **iv)
         elif kind == "html_path":
             tmp = tempfile.mkdtemp(prefix="vmon-c20-")
             obs = up.HtmlProgressObserver(os.path.join(tmp, "p.html"), **iv)
@@ -280,6 +299,8 @@ def run_case(desc):
             busy_so_far = 0.0
             running_now = 0
             skip_first = [0, 0, 0, 10 ** 9, len(seq) // 2][desc["seed"] % 5]
+            if desc.get("big") and desc["seed"] % 2:
+                skip_first = 10 ** 9  # many quick calls: everything is over before the display's first rendering
             if desc["seed"] % 3 == 0:
                 # the display's first refresh can come before anything has been announced (slow planning): it renders an empty state
                 try:
@@ -535,6 +556,8 @@ def run_case(desc):
            "sets": {"scope_value_types": sorted({type(v).__name__ for sc in scopes for v in sc})},
            "nontrivial": unorderable,
            "sig": hashlib.sha1(f"{kind}|{desc['mode']}|{[repr(s) for s in scopes]}|{len(seq)}|{desc['seed'] % 1000}".encode()).hexdigest()[:16]}
+    res["counters"]["slow_sink_busy_at_exit"] = counters_extra.get("slow_sink_busy_at_exit", 0)
+    res["counters"]["sequences_with_a_scope_over_100_calls"] = int(bool(desc.get("big")))
     if desc["seed"] % 300 == 0 or bad:
         res["sample"] = {"desc": desc, "scopes": [repr(s) for s in scopes], "sequence_head": [f"t{th}:{op}:{sec}:{sc!r}:{arg}:+{dtm}" for th, op, sec, sc, arg, dtm in seq[:12]],
                          "final": {f"{k[0]}/{k[1]!r}": v for k, v in list(final.items())[:6]}, "busy_virtual_s": busy}
